@@ -21,6 +21,7 @@ func (x *Exec) exec(st *State, fr *Frame, in ssa.Instruction) []*State {
 			p := &PtrV{Kind: PObj, Ref: ref, Typ: t}
 			x.storeInit(st, p, x.zero(t))
 			fr.regs[v] = p
+			x.notePendingInit(st, ref, t)
 			// register a name for contract expressions
 			if v.Comment != "" {
 				fr.cells[v] = x.newCell(v.Comment, t)
@@ -35,6 +36,20 @@ func (x *Exec) exec(st *State, fr *Frame, in ssa.Instruction) []*State {
 		p := x.get(fr, v.Addr).(*PtrV)
 		val := x.get(fr, v.Val)
 		x.checkStore(st, fr, in, p)
+		x.checkNonNilStore(st, fr, in, p, val)
+		if p.Kind != PCell {
+			x.checkEscape(st, fr, in, val)
+		}
+		if p.Kind == PField {
+			var keep []pendingInit
+			for _, pi := range st.pending {
+				if same(pi.ref, p.Ref) && pi.field == structName(p.Owner)+"."+p.Path {
+					continue
+				}
+				keep = append(keep, pi)
+			}
+			st.pending = keep
+		}
 		x.storePtr(st, p, val)
 	case *ssa.UnOp:
 		fr.regs[v] = x.unop(st, fr, v)
@@ -75,6 +90,7 @@ func (x *Exec) exec(st *State, fr *Frame, in ssa.Instruction) []*State {
 		switch xt := v.X.Type().Underlying().(type) {
 		case *types.Slice:
 			s := x.get(fr, v.X).(*SliceV)
+			st.noteInst(idx)
 			x.safety(st, fr, in, "index", And(Ge(idx, IntC(0)), Lt(idx, s.Len)), idx, s.Len)
 			fr.regs[v] = &PtrV{Kind: PElem, Base: s.Base, Idx: Add(s.Off, idx), ElemT: xt.Elem(), Typ: xt.Elem()}
 		case *types.Pointer:
@@ -126,6 +142,9 @@ func (x *Exec) exec(st *State, fr *Frame, in ssa.Instruction) []*State {
 			st.setHeap(key, Store(arr, base, z))
 		}
 		fr.regs[v] = &SliceV{Base: base, Off: IntC(0), Len: ln, Cap: cp}
+		if x.nnElems[typeKey(et)] && !(ln.IsInt() && ln.I.Sign() == 0) {
+			st.unfilled = append(st.unfilled, unfilledSlice{base, ln, et})
+		}
 	case *ssa.MakeMap:
 		ref := x.allocRef(st)
 		mt := v.Type()
@@ -142,8 +161,15 @@ func (x *Exec) exec(st *State, fr *Frame, in ssa.Instruction) []*State {
 		x.safety(st, fr, in, "nil-map", Ne(m, IntC(0)), m)
 		mt := v.Map.Type()
 		x.checkFrame(st, fr, in, m, mapDomKey(mt))
+		if x.nnValues[typeKey(mt)] {
+			x.safety(st, fr, in, "nil-value-stored", nonNilVal(x.get(fr, v.Value)))
+		}
+		x.checkEscape(st, fr, in, x.get(fr, v.Value))
 		x.mapStore(st, mt, m, x.get(fr, v.Key), x.get(fr, v.Value))
 	case *ssa.MakeInterface:
+		if _, isPtr := v.X.Type().Underlying().(*types.Pointer); isPtr && inModuleType(v.Type()) {
+			x.safety(st, fr, in, "nil-pointer-boxed", Ne(x.ptrRef(x.get(fr, v.X)), IntC(0)))
+		}
 		fr.regs[v] = x.makeIface(st, x.get(fr, v.X), v.X.Type())
 	case *ssa.ChangeInterface:
 		fr.regs[v] = x.get(fr, v.X)
@@ -276,6 +302,86 @@ func (x *Exec) checkStore(st *State, fr *Frame, in ssa.Instruction, p *PtrV) {
 	case PGlobal:
 		x.checkFrameGlobal(st, fr, in, p.Global)
 	}
+}
+
+// checkNonNilStore: declared non-nil invariants are asserted where a value is stored.
+func (x *Exec) checkNonNilStore(st *State, fr *Frame, in ssa.Instruction, p *PtrV, val Val) {
+	switch p.Kind {
+	case PElem:
+		if p.Path == "" && x.nnElems[typeKey(p.ElemT)] {
+			x.safety(st, fr, in, "nil-element-stored", nonNilVal(val))
+		}
+	case PField:
+		if x.nnFields[structName(p.Owner)+"."+p.Path] {
+			x.safety(st, fr, in, "nil-field-stored", nonNilVal(val))
+		}
+	}
+}
+
+// checkEscape: a slice made with make([]T, n) for a non-nil element type must be filled
+// completely before it is stored, returned or passed on.
+func (x *Exec) notePendingInit(st *State, ref *T, t types.Type) {
+	stt, ok := t.Underlying().(*types.Struct)
+	if !ok || isOpaqueStruct(t) {
+		return
+	}
+	for i := 0; i < stt.NumFields(); i++ {
+		name := structName(t) + "." + stt.Field(i).Name()
+		if x.nnFields[name] {
+			st.pending = append(st.pending, pendingInit{ref, name})
+		}
+	}
+}
+
+func (x *Exec) escapePending(st *State, fr *Frame, in ssa.Instruction, ref *T) {
+	var keep []pendingInit
+	for _, pi := range st.pending {
+		if same(pi.ref, ref) {
+			x.safety(st, fr, in, "nonnil-field-never-set:"+pi.field, TFalse)
+			continue
+		}
+		keep = append(keep, pi)
+	}
+	st.pending = keep
+}
+
+func (x *Exec) checkEscape(st *State, fr *Frame, in ssa.Instruction, val Val) {
+	if len(st.unfilled) == 0 && len(st.pending) == 0 {
+		return
+	}
+	var check func(v Val)
+	check = func(v Val) {
+		switch s := v.(type) {
+		case *PtrV:
+			if s.Kind == PObj {
+				x.escapePending(st, fr, in, s.Ref)
+			}
+		case *IfaceV:
+			x.escapePending(st, fr, in, s.Ref)
+		case *SliceV:
+			var keep []unfilledSlice
+			for _, u := range st.unfilled {
+				if same(u.base, s.Base) {
+					arrT := st.heapArr(elemKey(u.elemT, "#tag"), ArrSort(SInt, ArrSort(SInt, SInt)))
+					bv := Sym("b!k", SInt)
+					goal := Forall([]*T{bv}, Implies(And(Ge(bv, IntC(0)), Lt(bv, u.n)), Ne(Select(Select(arrT, u.base), bv), IntC(0))))
+					x.safety(st, fr, in, "unfilled-slice-escapes", goal)
+					continue
+				}
+				keep = append(keep, u)
+			}
+			st.unfilled = keep
+		case *StructV:
+			for _, f := range s.F {
+				check(f)
+			}
+		case TupleV:
+			for _, f := range s {
+				check(f)
+			}
+		}
+	}
+	check(val)
 }
 
 func (x *Exec) unop(st *State, fr *Frame, v *ssa.UnOp) Val {
@@ -504,6 +610,12 @@ func Ssub(s, lo, hi *T) *T {
 
 // StrEq: equality against a literal is expanded bytewise (extensional); otherwise "=".
 func StrEq(a, b *T) *T {
+	if b.Op == "app" && b.Name == "ite" {
+		return Ite(b.Args[0], StrEq(a, b.Args[1]), StrEq(a, b.Args[2]))
+	}
+	if a.Op == "app" && a.Name == "ite" {
+		return Ite(a.Args[0], StrEq(a.Args[1], b), StrEq(a.Args[2], b))
+	}
 	la, oka := IsStrLit(a)
 	lb, okb := IsStrLit(b)
 	if oka && okb {
@@ -513,13 +625,35 @@ func StrEq(a, b *T) *T {
 		a, b, la, oka = b, a, lb, true
 	}
 	if oka && len(la) <= 16 {
-		cs := []*T{Eq(Slen(b), IntC(int64(len(la))))}
-		for i := 0; i < len(la); i++ {
-			cs = append(cs, Eq(Sat(b, IntC(int64(i))), IntC(int64(la[i]))))
+		if !mentionsBound(b) {
+			// (f!eqlit x L) is defined at emission: <=> bytewise equality, and => x = L
+			return UF("eqlit", SBool, b, a)
 		}
-		return And(cs...)
+		return bytewiseEq(b, la)
 	}
 	return Eq(a, b)
+}
+
+func bytewiseEq(b *T, la string) *T {
+	cs := []*T{Eq(Slen(b), IntC(int64(len(la))))}
+	for i := 0; i < len(la); i++ {
+		cs = append(cs, Eq(Sat(b, IntC(int64(i))), IntC(int64(la[i]))))
+	}
+	return And(cs...)
+}
+
+func mentionsBound(t *T) bool {
+	switch t.Op {
+	case "sym":
+		return strings.HasPrefix(t.Name, "b!")
+	case "app":
+		for _, a := range t.Args {
+			if mentionsBound(a) {
+				return true
+			}
+		}
+	}
+	return false
 }
 
 func (x *Exec) lookup(st *State, fr *Frame, v *ssa.Lookup) []*State {
@@ -534,6 +668,9 @@ func (x *Exec) lookup(st *State, fr *Frame, v *ssa.Lookup) []*State {
 	mt := v.X.Type()
 	m := x.scalar(x.get(fr, v.X))
 	key := x.get(fr, v.Index)
+	if kt, ok := key.(*T); ok {
+		st.noteInst(kt)
+	}
 	val, ok := x.mapLoad(st, mt, m, key)
 	if v.CommaOk {
 		fr.regs[v] = TupleV{val, ok}
@@ -569,6 +706,9 @@ func (x *Exec) mapLoad(st *State, mt types.Type, m *T, key Val) (Val, *T) {
 	}
 	val, _ := x.unflatten(et, ts)
 	x.assumeLoaded(st, val, et)
+	if x.nnValues[typeKey(mt)] {
+		st.assume(Implies(ok, nonNilVal(val)))
+	}
 	return val, ok
 }
 
@@ -864,6 +1004,7 @@ func (x *Exec) next(st *State, fr *Frame, v *ssa.Next) []*State {
 	kt := mt.Underlying().(*types.Map).Key()
 	kv, _ := x.unflatten(kt, []*T{k})
 	x.assumeTypeFacts(st, kv, kt)
+	st.noteInst(k)
 	var vis *T
 	visIdx := -1
 	for i := range st.iters {
@@ -925,6 +1066,9 @@ func (x *Exec) ret(st *State, fr *Frame, v *ssa.Return) []*State {
 		}
 		res = tv
 	}
+	if res != nil {
+		x.checkEscape(st, fr, v, res)
+	}
 	if len(st.frames) > 1 {
 		// return from an inlined call
 		st.frames = st.frames[:len(st.frames)-1]
@@ -943,6 +1087,16 @@ func (x *Exec) atReturn(st *State, fr *Frame, v *ssa.Return, res Val) {
 	c := x.topC
 	site := sites(fr.fn).names[v]
 	x.emitCover(st, x.topKey+"/cover:"+site)
+	if fr.fn.Name() == "init" {
+		// package initialisation establishes the declared global invariants
+		for i, gi := range x.cs.GlobalInvs {
+			if x.ld.pkgByName[gi.Label] != fr.fn.Pkg.Pkg {
+				continue
+			}
+			ge := &Env{x: x, st: st, vars: map[string]Val{}, types: map[string]types.Type{}, pkg: fr.fn.Pkg.Pkg, facts: st}
+			x.checkClauses(st, ge, []Clause{{Label: fmt.Sprintf("globalinv%d", i), Expr: gi.Expr, Where: gi.Where}}, "post", x.topKey, site, false)
+		}
+	}
 	if c == nil {
 		return
 	}
@@ -993,4 +1147,39 @@ func trimPkg(s string) string {
 		return s[i+1:]
 	}
 	return s
+}
+
+// checkNonNilInit: a struct with declared non-nil fields must have them stored in the
+// same block as its allocation (composite literal), before any call or branch.
+func (x *Exec) checkNonNilInit(st *State, fr *Frame, al *ssa.Alloc, t types.Type) {
+	stt, ok := t.Underlying().(*types.Struct)
+	if !ok || isOpaqueStruct(t) {
+		return
+	}
+	for i := 0; i < stt.NumFields(); i++ {
+		name := structName(t) + "." + stt.Field(i).Name()
+		if !x.nnFields[name] {
+			continue
+		}
+		found := false
+		started := false
+		for _, in := range al.Block().Instrs {
+			if in == ssa.Instruction(al) {
+				started = true
+				continue
+			}
+			if !started {
+				continue
+			}
+			if s, ok := in.(*ssa.Store); ok {
+				if fa, ok := s.Addr.(*ssa.FieldAddr); ok && fa.X == ssa.Value(al) && fa.Field == i {
+					found = true
+					break
+				}
+			}
+		}
+		if !found {
+			x.safety(st, fr, al, "nonnil-field-not-initialised:"+stt.Field(i).Name(), TFalse)
+		}
+	}
 }
